@@ -253,6 +253,8 @@ package transform
 //@   requires wf_package_initialised: tuType() != nil && kind(tuType()) == Interface
 //@   ensures C10_one_output_field_per_leaf: err == nil ==> len(out) == leafCount(sf.Type, tuType())
 //@   ensures C10_only_nilable_fields_are_flattened: err == nil ==> isNilableKind(kind(sf.Type))
+//@   at call f.nameEncodeCasing(:
+//@     assert C10_C16_a_field_that_is_not_flattened_keeps_its_own_name: len(flattenedName) == 1 && flattenedName[0] == sf.Name
 
 //@ func transform.(*FlattenMangler).Unmangle(f, sf, vs) (v, err)
 //@   props C10 C11
@@ -295,6 +297,19 @@ package transform
 // values are matched to the fields by name, in order, and a pointer-embedded struct stays unset when every
 // hoisted value is unset.
 // ---------------------------------------------------------------------------------------------
+//@ func transform.(AnonymousFlattenMangler).Mangle(a, sf) (out, err)
+//@   props C10
+//@   safety C16 C10
+//@   requires sf.Type != nil
+//@   requires wf_embedded_pointers_point_to_named_non_pointer_types: sf.Anonymous && kind(sf.Type) == Ptr ==> elem(sf.Type) != nil && kind(elem(sf.Type)) != Ptr
+//@   loop 0:
+//@     invariant 0 <= i && fresh(out.arr)
+//@     invariant C10_only_exported_fields_are_hoisted: forall k int :: {out[k].Name} 0 <= k && k < len(out) ==> isExported(out[k].Name)
+//@   ensures err == nil
+//@   ensures C10_only_exported_fields_are_hoisted: sf.Anonymous && (kind(sf.Type) == Struct || (kind(sf.Type) == Ptr && kind(elem(sf.Type)) == Struct)) ==>
+//@        (forall k int :: {out[k].Name} 0 <= k && k < len(out) ==> isExported(out[k].Name))
+//@   ensures C10_a_field_that_is_not_embedded_passes_through: !sf.Anonymous ==> len(out) == 1 && out[0].Name == sf.Name && out[0].Type == sf.Type
+
 //@ macro unsetValue(v Val) bool = (kind(vtype(v)) == Ptr || kind(vtype(v)) == Slice || kind(vtype(v)) == Map || kind(vtype(v)) == Interface || kind(vtype(v)) == Chan) && visnil(v)
 //@ func transform.(AnonymousFlattenMangler).unmangleStruct(a, sf, fvs) (out, allNil)
 //@   props C10
@@ -364,6 +379,24 @@ package transform
 //@     invariant len(out) == len(fields) && fresh(out.arr)
 //@     invariant forall k int :: {out[k].transform} 0 <= k && k < rangeidx && k < len(fields) ==> out[k].transform == nil
 //@   ensures C10_one_pair_per_field_without_transformer: len(out) == len(fields) && (forall k int :: {out[k].transform} 0 <= k && k < len(fields) ==> out[k].transform == nil)
+
+//@ iface transform.Mangler.ShouldRecurse(m, sf) (r)
+//@   pure
+//@ func transform.(*Transformer).maybeRecursivelyMangle(t, mangler, state, fields) (out, err)
+//@   props C10
+//@   safety C16 C10
+//@   requires t != nil && mangler != nil && state != nil
+//@   requires C10_one_pair_per_field: len(state.out) >= len(fields)
+//@   requires forall k int :: {fields[k].Type} 0 <= k && k < len(fields) ==> fields[k].Type != nil
+//@   requires wf_package_initialised: tuType() != nil && kind(tuType()) == Interface
+//@   modifies *
+//@   loop 0:
+//@     invariant len(out) == len(fields) && fresh(out.arr) && len(state.out) >= len(fields) && tuType() != nil && kind(tuType()) == Interface
+//@     invariant forall k int :: {fields[k].Type} 0 <= k && k < len(fields) ==> fields[k].Type != nil
+//@   at call fieldTransformer.TranslateType(:
+//@     assert C10_text_unmarshalers_are_never_recursed_into: !implements(field.Type, tuType()) && !implements(ptrTo(field.Type), tuType())
+//@     assert C10_only_struct_like_fields_are_recursed_into: kind(field.Type) == Struct || ((kind(field.Type) == Ptr || kind(field.Type) == Array || kind(field.Type) == Slice) && kind(elem(field.Type)) == Struct)
+//@   ensures C10_one_field_out_per_field_in: err == nil ==> len(out) == len(fields)
 
 //@ func transform.(*Transformer).maybeRecursivelyUnmangle(t, fieldState, mangledField) (mf, uerr)
 //@   props C10
